@@ -40,9 +40,12 @@ Definition run (comp : Z) (inp : list Z) : list Z :=
   else if comp =? 90 then run_backend inp
   else if comp =? 100 then run_port inp
   else if comp =? 101 then run_multi inp
+  else if comp =? 102 then run_ioport inp
   else if comp =? 110 then run_sock inp
   else if comp =? 120 then run_conc inp
   else if comp =? 121 then run_conc_multi inp
+  else if comp =? 122 then run_send_copy inp
+  else if comp =? 123 then run_conc_fan inp
   else if comp =? 111 then run_server inp
   else if comp =? 112 then run_addr_format inp
   else if comp =? 113 then run_addr_parse inp
